@@ -8,7 +8,7 @@
 (* edge, tangent, inside, endpoint on the boundary).                       *)
 (***************************************************************************)
 EXTENDS G3DBodies, G3DMeasure, TLC, Json
-CONSTANTS S, BODIES, KF, SEED, NSHARD, NXCHECK
+CONSTANTS S, BODIES, KF, SEED, NSHARD, NXCHECK, GENK, NGEN
 VARIABLES ph, body, f, r      \* r: the exact intersection, computed once per case
 vars == <<ph, body, f, r>>
 
@@ -22,7 +22,7 @@ FlatsAt(K, p) ==
                [] k = "Point"   -> { MkPoint(LP(p)) } : k \in KF }
 
 \* three levels so that successor generation is spread over all workers: body, anchor point, flat
-Init == ph = 1 /\ body \in { Body(nm, S) : nm \in BODIES } /\ f = NoneObj /\ r = NoneObj
+Init == ph = 1 /\ body \in { Body(nm, S) : nm \in BODIES } \cup GenHullSample(GENK, 2, S, SEED, NGEN) /\ f = NoneObj /\ r = NoneObj
 Next == \/ ph = 1 /\ ph' = 2 /\ body' = body /\ f' \in { MkPoint(LP(p)) : p \in BBoxPts(Vertices(body), 1) } /\ r' = r
         \/ ph = 2 /\ ph' = 3 /\ body' = body /\ f' \in { x \in FlatsAt(body, XYZ(f.p)) : InShard(x, body, SEED, NSHARD) }
            /\ r' = Inter(f', body)
